@@ -1303,6 +1303,25 @@ def r714(rep: Report, ctx: Ctx) -> None:
         "get_event_lists_to_add_from_event_not_within_loop"])
 
 
+def pruned_set_is_final(rep: Report, ctx: Ctx, rule: str) -> None:
+    """What is pruned from the body is exactly "cannot get back into the
+    loop": the set handed to remove_nodes_from is not added to after it is
+    computed (seed C07-x: dead-end events behind a break branch were added -
+    they exist only in the body, so their types vanish from the nesting)."""
+    from .effspec import effects, mutated_locals
+    fi = ctx.func("create_sub_graph_of_loop")
+    rm = [e for e in effects(ctx, fi) if e.kind == "call"
+          and e.name == "remove_nodes_from"]
+    muts = [m for e in rm for a in e.node.args  # type: ignore[attr-defined]
+            for m in mutated_locals(fi, a)]
+    rep.ob(rule, "create_sub_graph_of_loop: the set of events pruned from "
+           "the body is not extended after it is computed", bool(rm) and not
+           muts, fi=fi, node=muts[0][1] if muts else fi.node,
+           detail=(f"'{muts[0][0]}' is modified in place: "
+                   f"{unparse(muts[0][1])[:80]}" if muts else
+                   f"{len(rm)} pruning call(s), argument computed once"))
+
+
 def r715(rep: Report, ctx: Ctx) -> None:
     from .loopspec import check_table
     rep.rule("R7.15", "carving the body: exit, break and loop-back edges "
@@ -1312,6 +1331,7 @@ def r715(rep: Report, ctx: Ctx) -> None:
         "remove_loop_edges", "add_start_and_end_events_to_graph",
         "create_end_event_to_event_lists_mapping",
         "create_sub_graph_of_loop"])
+    pruned_set_is_final(rep, ctx, "R7.15")
 
 
 def r716(rep: Report, ctx: Ctx) -> None:
